@@ -541,7 +541,7 @@ thm("C03", ["C03", "C03M", "C07V"], ["C12_vec_unaligned_paths", "C07_vec128_bloc
             "C03_mantis_spec", "C03_mantis_impl", "crypt_flip", "C02_swap_enc_is_dec"])
 thm("C04", ["C04"], ["C04_skinny128", "C04_skinny64"])
 VEC_INC = ["C05_v128c_increment", "C05_v256c_increment", "C05_v64c_increment", "C05_vmc_increment",
-           "C06_vec128_keystream", "C06_vec256_keystream", "C06_vec64_keystream", "C06_mantis_vec128_keystream", "C05_lane_increment_sequences", "C09_xor_blocks", "C09_xor_partial"]
+           "C06_vec128_keystream", "C06_vec256_keystream", "C06_vec64_keystream", "C06_mantis_vec128_keystream", "C05_lane_increment_sequences", "C05_source_calls_checked", "C05_vec128_stagger_and_step", "C09_xor_blocks", "C09_xor_partial"]
 thm("C05", ["C05", "C06", "C05V", "C06V", "C07M", "C09X"], ["C05_stream", "C05_init", "C05_involution", "C05_calls", "C05_C06_instances"] + VEC_INC)
 thm("C06", ["C06", "C05V", "C06V", "C07M", "C09X"], ["C06_ctr", "C06_step", "C06_init", "C05_C06_instances"] + VEC_INC)
 def search_c13(run, tier, rng):
